@@ -165,6 +165,10 @@ Section Cache.
        sys_write flt t h (ser (i_kind c) o))
       (ret tt).
 
+  (* DocumentCache.put: only Document / Element instances are stored; anything else is
+     ignored.  Objects numbered from 100 on stand for such other values. *)
+  Definition storable (k : kind) (o : N) : bool := negb (kind_eqb k KXml && (100 <=? o)%N).
+
   Definition cache_clear : M unit := fun f => (Ret tt, fs_clear f).
 
   (* FileCache.__check_version, run by __init__ *)
@@ -214,8 +218,10 @@ Section Cache.
     | OPut flt i id x =>
         match insts s i with
         | None => (s, RSkip)
-        | Some c => let (r, f) := cache_put flt c (now s) id x (fs s) in
-                    (mkstate f (now s) (insts s), of_unit r)
+        | Some c => if storable (i_kind c) x
+                    then let (r, f) := cache_put flt c (now s) id x (fs s) in
+                         (mkstate f (now s) (insts s), of_unit r)
+                    else (s, RUnit)
         end
     | OGet flt i id =>
         match insts s i with
@@ -276,7 +282,7 @@ Section Cache.
     | OPut flt i id x =>
         match sinst s i with
         | None => s
-        | Some c => if complete flt (i_kind c) x
+        | Some c => if complete flt (i_kind c) x && storable (i_kind c) x
                     then mksstate (g_set (g s) id (i_kind c) (Some (x, snow s))) (snow s) (sinst s)
                     else s
         end
@@ -375,16 +381,19 @@ Record hcase := mkhcase {
   h_ver : bytes;
   h_ops : list op;
   h_names : list str;
-  h_obs : list (result * list bool) }.
+  h_obs : list (result * N) }.       (* directory listing as a bit mask over h_names *)
 
-Definition present (s : state) (names : list str) : list bool :=
-  map (fun n => match fs s n with Some _ => true | None => false end) names.
+Fixpoint mask (f : fsys) (names : list str) : N :=
+  match names with
+  | [] => 0
+  | n :: r => (match f n with Some _ => 1 | None => 0 end + 2 * mask f r)%N
+  end.
 
-Fixpoint trace_eqb (names : list str) (tr : list (state * result)) (obs : list (result * list bool)) : bool :=
+Fixpoint trace_eqb (names : list str) (tr : list (state * result)) (obs : list (result * N)) : bool :=
   match tr, obs with
   | [], [] => true
   | m :: tr', o :: obs' =>
-      result_eqb (snd m) (fst o) && list_eqb Bool.eqb (present (fst m) names) (snd o)
+      result_eqb (snd m) (fst o) && N.eqb (mask (fs (fst m)) names) (snd o)
       && trace_eqb names tr' obs'
   | _, _ => false
   end.
